@@ -84,6 +84,20 @@ func (g Ghost) find(src, dst string, seq uint64) (PktRec, bool) {
 type PState struct {
 	W world.WState
 	G Ghost
+	// Rec holds every relayed message that was accepted on the path to this state, verbatim (old proof, old proof
+	// height). Not part of the key: it is re-submitted in later states as a replay probe.
+	Rec []RecMsg
+}
+
+// RecMsg is an accepted relayed message.
+type RecMsg struct {
+	Kind  string // recv | ack | recvclean
+	Chain string
+	Label string
+	Msg   sdk.Msg
+	Seq   uint64
+	Src   string
+	Dst   string
 }
 
 // ---------------------------------------------------------------------------------------------
@@ -402,7 +416,18 @@ func (m *PktModel) Expand(wk any, state any, depth int, withSucc bool) ([]explor
 		if m.Observe != nil {
 			ev.ObsAfter = m.Observe(at)
 		}
-		succs = append(succs, m.finish(w, st, ev, &g, counters))
+		sc := m.finish(w, st, ev, &g, counters)
+		if ev.Err == nil && ev.Res.OK() && w.LastMsg != nil && (ra.kind == "recv" || ra.kind == "ack" || ra.kind == "recvclean") {
+			ns := sc.State.(PState)
+			rm := RecMsg{Kind: ra.kind, Chain: at.Name, Label: ra.label, Msg: w.LastMsg, Seq: ra.pkt.Sequence, Src: ra.pkt.SourceChain, Dst: ra.pkt.DestinationChain}
+			if ra.kind == "recvclean" {
+				rm.Seq, rm.Src, rm.Dst = ra.clean.Sequence, ra.clean.SourceChain, ra.clean.DestinationChain
+			}
+			ns.Rec = append(append([]RecMsg{}, st.Rec...), rm)
+			sc.State = ns
+		}
+		w.LastMsg = nil
+		succs = append(succs, sc)
 	}
 	return succs, sf, counters
 }
@@ -412,7 +437,7 @@ func (m *PktModel) finish(w *world.World, st PState, ev *StepEvent, g *Ghost, co
 	if m.StepCheck != nil {
 		fs = m.StepCheck(m, w, ev)
 	}
-	ns := PState{W: w.Freeze(), G: *g}
+	ns := PState{W: w.Freeze(), G: *g, Rec: st.Rec}
 	outcome := ev.Kind + ":"
 	switch {
 	case ev.Err != nil:
@@ -882,6 +907,26 @@ func (m *PktModel) runProbes(w *world.World, st PState, counters map[string]int)
 	}
 	if m.Props["C10"] {
 		probes = append(probes, m.cleanProbes(w, st.G)...)
+	}
+	// verbatim replays: every message that was accepted earlier on this path, with its original proof and proof height
+	// (still verifiable against the consensus state the client recorded back then)
+	for i, r := range st.Rec {
+		pr := Probe{Label: fmt.Sprintf("verbatim-replay#%d[%s]", i, r.Label), Chain: r.Chain, Msg: r.Msg}
+		switch r.Kind {
+		case "recv":
+			pr.MustFail, pr.Signature = "C02", "recv-replay-accepted:verbatim-old-proof"
+			if w.C(r.Chain).CleanPoint(r.Src, r.Dst) >= r.Seq {
+				pr.AlsoFail, pr.Signature = "C10", "recv-accepted-at-or-below-clean-point:verbatim-old-proof"
+			}
+		case "ack":
+			pr.MustFail, pr.Signature = "C03", "ack-processed-twice:verbatim-old-proof"
+			if w.C(r.Chain).CleanPoint(r.Src, r.Dst) >= r.Seq {
+				pr.AlsoFail = "C10"
+			}
+		case "recvclean":
+			pr.MustFail, pr.Signature = "C10", "recvclean-replayed:verbatim-old-proof"
+		}
+		probes = append(probes, pr)
 	}
 	for _, pr := range probes {
 		if pr.MustFail == "" || !(m.Props[pr.MustFail] || (pr.AlsoFail != "" && m.Props[pr.AlsoFail]) || (m.Props["C19"] && m.ProbeMode == "tx")) {
